@@ -138,7 +138,7 @@ def min_bytes(v):
 
 
 def encode(roots, order=None, size=None, off=None, has_idx=False, has_cache=False, has_crc=False, magic='generic',
-           with_hashes=lambda c: False, cache_flag=lambda i: 0, root_idx=None, raw_patch=None):
+           with_hashes=lambda c: False, cache_flag=lambda i: 0, root_idx=None, raw_patch=None, stored_patch=None):
     """roots: list of RCell.  order: list of RCell (a linear extension containing every reachable
     cell exactly once; default: reference topological order).  root_idx: explicit root index list
     (default: positions of `roots` in order).  raw_patch(i, refs) -> refs allows the caller to
@@ -158,7 +158,10 @@ def encode(roots, order=None, size=None, off=None, has_idx=False, has_cache=Fals
         body = bytes([d1, c.d2()])
         if wh:
             sig = [l for l in range(4) if l == 0 or (c.mask >> (l - 1)) & 1]
-            body += b''.join(c.hash(l) for l in sig) + b''.join(c.depth(l).to_bytes(2, 'big') for l in sig)
+            hs, ds = [c.hash(l) for l in sig], [c.depth(l) for l in sig]
+            if stored_patch:                       # stored_patch(i, hashes, depths) -> (hashes, depths): a bag whose STORED values are not the real ones
+                hs, ds = stored_patch(i, hs, ds)
+            body += b''.join(hs) + b''.join(d.to_bytes(2, 'big') for d in ds)
         body += c.data_bytes()
         refs = [pos[(r.hash(), r.special)] for r in c.refs]
         if raw_patch:
